@@ -171,8 +171,13 @@ func newSignalingServer(rawURL string, keepLocalAddresses bool) (*SignalingServe
 		return nil, fmt.Errorf("invalid broker url: %s", err)
 	}
 
-	s.transport = http.DefaultTransport.(*http.Transport)
-	s.transport.(*http.Transport).ResponseHeaderTimeout = 30 * time.Second
+	// A copy of the default transport: every NAT type measurement makes a new
+	// SignalingServer, and setting the timeout on the shared
+	// http.DefaultTransport would write a field that requests in flight on it
+	// (the broker polls) are reading.
+	transport := http.DefaultTransport.(*http.Transport).Clone()
+	transport.ResponseHeaderTimeout = 30 * time.Second
+	s.transport = transport
 
 	return s, nil
 }
